@@ -203,7 +203,7 @@ def c11():
                   "label rebound to a nested reference) and copy_keep (overwrite=False over a pre-existing definition): after the transfer the new manager's "
                   "projection must equal the spec state and every later step on it must conform (reacts identically). Keys: plain and hostile (quotes, brackets, "
                   "text containing the container label, unicode, ints, floats, tuples). non-trivial = non-empty triggered set",
-                  plans, tags=["C11"], keys=keys, modes=modes, hashseeds=hs, queries=False, finish=False, loops=("dumpload", "copy_plain", "copy_bind"), nloops=1)
+                  plans, tags=["C11"], keys=keys, modes=modes, hashseeds=hs, queries=False, finish=False, loops=("dumpload", "copy_plain"), nloops=1)
     v.cov["rule"] += " || second stage, Expr.tla: for every expression TLC builds (all operators, literal catalogue incl. negatives and floats, abs/round(x,n)/divmod, " \
                      "math.floor/ceil/trunc, calls with positional and keyword arguments, computed keys; plain and hostile keys) eval(str(e)) in a namespace binding " \
                      "the container labels (and the module math) must rebuild the same AST, compare equal, hash equally and evaluate equally"
